@@ -10,7 +10,8 @@ def run(prop, tier, seed, ctx):
     ctx.assumptions += ["the construct matrix (statement kind x expression kind x context; documented builtin functions and "
                         "methods x argument shape) is the stand-in for 'every program of the introductory subset'; exotic "
                         "language forms are only required not to raise and to be idempotent",
-                        "histories of analyze(cell program) / analyze(other program) / clear_report up to the depth bound"]
+                        "histories of analyze(cell program) / analyze(other program) / analyze(a program whose analysis fails internally) / "
+                        "clear_report up to the depth bound"]
     ctx.cov["rule"] = ("case = (matrix cell, history of analyze/clear operations) enumerated by TLC and replayed on real "
                        "tifa_analysis; non-trivial = history repeats an analysis or clears the report; distinct = distinct "
                        "(cell, history)")
@@ -39,6 +40,12 @@ def run(prop, tier, seed, ctx):
         ctx.violation("C18|%s|%s|%s" % (m["kind"], c["k"], c["s"] if c["k"] != "construct" else c["s"] + "+" + c["e"]),
                       "%s for cell %s at step %s: %s  ::  %s" % (m["kind"], json.dumps(c, sort_keys=True), m.get("step"), m["detail"],
                                                                  m["source"].replace("\n", " / ")[-200:]), m)
+
+
+    mres = tlc.run("MC_TifaRobust", "MUT_TifaRobust_chain_not_reset.cfg", workers=2, timeout=300)
+    if "StartsClean" not in mres.violated:
+        raise MachineryError("mutant chain_not_reset did not violate StartsClean")
+    ctx.notes.append("self-test: a recursion-detection stack that survives a failed analysis violates StartsClean")
 
 
 def replay(prop, rep):
